@@ -251,6 +251,8 @@ void *vf_malloc(uint64_t n) {
 }
 void vf_free(void *p) { free(p); }
 #endif
+void *vf_aligned_malloc(uint64_t bytes, uint64_t alignment) { return vf_malloc(bytes); }
+void vf_aligned_free(void *p) { vf_free(p); }
 void *vf_malloc_nt(uint64_t n, void *nt) { return vf_malloc(n); }
 void *vf_malloc_al(uint64_t n, uint64_t al) { return vf_malloc(n); }
 void *vf_aligned_alloc(uint64_t al, uint64_t n) { return vf_malloc(n); }
@@ -335,6 +337,12 @@ int64_t vf_strtol(void *s, void **end, int base) {
  * max_size, geometric growth, storage for capacity+1 chars */
 void *vf_string_M_create(void *self, uint64_t *cap, uint64_t old_cap) {
   const uint64_t mx = 0x3fffffffffffffffULL;
+#ifdef VF_STRING_SSO_ONLY
+  /* bounded model: every std::string of the run fits the 15-char small-string buffer; a heap string
+   * makes the run inconclusive instead of creating a symbolic-size heap object */
+  __CPROVER_assert(0, "rt: heap-allocated std::string outside the modelled bounds (VF_STRING_SSO_ONLY)");
+  __CPROVER_assume(0);
+#endif
   if (*cap > mx) vf_abort();
   if (*cap > old_cap && *cap < 2 * old_cap) { *cap = 2 * old_cap; if (*cap > mx) *cap = mx; }
   return vf_malloc(*cap + 1);
@@ -400,6 +408,32 @@ int vf_mutex_unlock(void *m) {
   return 0;
 }
 int vf_personality(int a, int b, uint64_t c, void *d, void *e) { return 0; }
+void *vf_getenv(void *name) { return 0; }
+uint64_t vf_strtoul(void *s, void *end, int base) { return (uint64_t)vf_strtol(s, end, base); }
+#ifndef VF_HW
+#define VF_HW 2
+#endif
+unsigned vf_hw_concurrency(void) { return VF_HW; }
+/* std::thread: starting one only records it (and disposes of the callable state object through the
+ * harness-provided hook); the thread's body is run by a model thread of the harness */
+uint32_t vf_threads_started;
+void vf_std_thread_state_dtor(void *st) { }
+void vf_std_thread_start(void *thr, void *state_uptr, void *dep) {
+  vf_threads_started++;
+  *(uint64_t *)thr = vf_threads_started;
+  void *st = *(void **)state_uptr;
+  *(void **)state_uptr = 0;
+#ifdef VF_HAVE_THREAD_MODEL
+  vf_thread_state_dispose((uint8_t *)st); /* harness/common/thread_model.h */
+#endif
+}
+void vf_std_thread_detach(void *thr) { *(uint64_t *)thr = 0; }
+#ifndef VF_SEQ
+/* sequential / par engines: worker threads are virtual (the harness performs their work) */
+void vf_std_thread_join(void *thr) { *(uint64_t *)thr = 0; }
+void vf_block_until(uint32_t *nonzero) { __CPROVER_assume(*nonzero != 0); }
+void vf_wait_started(uint32_t n) { __CPROVER_assume(vf_threads_started >= n); }
+#endif
 
 /* --- exceptions as opaque tokens ------------------------------------------------------------ */
 #ifndef VF_SEQ
